@@ -60,6 +60,25 @@ CHECKS = {
         "Rotation specified by their defining equations (assumed). The end-to-end relation is stated for fully known tracked positions "
         "(after homing/probing under a non axis-aligned transform the image of an unknown coordinate is undefined). A-real: in floats an "
         "axis may additionally be emitted because of rounding noise, never omitted."),
+ "C08": dict(category="other",
+   text="Deductive part (string level, cvc5/z3): line(s) == rstrip(s) ++ line ending and a break-free statement gives a body terminated exactly once; "
+        "command() == command [space parameters] [space one confined comment]; parameters() == axis words first in X,Y,Z order (None omitted) then the "
+        "other keys, '<label><number>' separated by single spaces; number(): 0 -> '0', non-finite -> ValueError, otherwise exactly one call of "
+        "np.format_float_positional with precision=decimal_places, unique=True, fractional=True, sign=False, trim='-' (call-argument obligation); "
+        "GCodeCore.write hands utf8(line) to every writer. The NUMERIC clause (plain signed decimal within half a unit of the last place) is numpy's "
+        "and is only checked on a bounded grid — hence category 'other', not 'proof'.",
+   note="Bounded: grid of doubles (subnormals, ±0, ties at each precision 0..12, magnitudes to 1e15, numpy scalars, seeded random values) x 13 precisions with exact "
+        "rational arithmetic; tolerance = half a unit + distance between the double and its shortest repr (numpy rounds the repr). The end-to-end text<->block "
+        "bridge is a bounded differential with the independent lexer (specs/lexer.py). A-str, A-kwargs (non-axis keyword values are numbers: F=None would be "
+        "written as 'FNone' — observation, outside the statement's quantifier).", design_ref="DESIGN.md §4 C08"),
+ "C09": dict(category="proof",
+   text="For each comment style (the 7 bracketed styles, ';', and custom symbols) DefaultFormatter.comment(text) is proved, for ALL strings text, to "
+        "start with the opening symbol, to contain no line break, and (bracketed styles) to contain the closing symbol only at its very end — which is "
+        "what an independent comment lexer needs to remove exactly the comment; command() is proved to place the same words, one space and one such "
+        "comment; every builder entry point that accepts text reaches the output only through comment()/command() (formatter contracts at call sites).",
+   note="Assumed string-library contracts: ' '.join(text.splitlines()) contains no line break; str.replace(a, b) leaves no occurrence of a (b not containing a). "
+        "Both, and the text<->block bridge, are exercised by a bounded end-to-end differential (hostile texts x 10 styles x 2 line endings x 11 entry points, "
+        "independent lexer). Custom comment symbols containing '{}' are outside the enumeration."),
  "C13": dict(category="proof",
    text="save_state/restore_state (stack and named forms, empty-stack and missing-name cases), delete_state: exact effect on the abstract view "
         "(current, stack, named map) incl. frames, with heap SEPARATION (current, every stack entry and every named entry are distinct objects "
@@ -106,8 +125,8 @@ CHECKS = {
 }
 
 NOT_APPLICABLE = {
- "C08": "checks for this property are still being built in this round (will be claimed once its units discharge); not a statement about applicability",
- "C09": "checks for this property are still being built in this round (will be claimed once its units discharge); not a statement about applicability",
+ 
+ 
  "C10": "checks for this property are still being built in this round (will be claimed once its units discharge); not a statement about applicability",
  "C11": "checks for this property are still being built in this round (will be claimed once its units discharge); not a statement about applicability",
  "C12": "checks for this property are still being built in this round (will be claimed once its units discharge); not a statement about applicability",
